@@ -1,14 +1,14 @@
 CONSTANTS
-  W = 1
+  W = 3
   Limit = 1
   L = 1
   Uds = {}
-  MaxConns = 2
+  MaxConns = 4
   MaxFaults = 0
   MaxCmds = 0
   MaxErrs = 0
   MaxBare = 0
-  WakeAt = 1
+  WakeAt = 2
   IgnoreUnknownIdx = TRUE
   UnlinkOnDeregister = FALSE
   ResumeClearsBackoff = TRUE
@@ -25,6 +25,7 @@ CONSTANTS
   JumpToFirstAvailable = FALSE
 SPECIFICATION Spec
 VIEW View
-INVARIANTS C03_NoLostWake
+INVARIANTS TypeOK C01_Conservation C01_ServedOnce C01_NoSilentDrop C02_Bound C02_NoForcedSend C03_NoLostWake C04_RoundRobin C04_BitsTrueWhenCalm C05_ListenerLive C05_UdsReachable C05_ConnErrNoDelay C05_TimerHasTimeout C08_NoPanic C08_NoSpin C08_NoGhostBit C08_NoDupHandles C08_FaultReportedOnce LogInit
 PROPERTIES Steps
+ACTION_CONSTRAINT LogEdge
 CHECK_DEADLOCK FALSE
